@@ -5,7 +5,7 @@
    budget being the number of storage calls after which the process dies (counted from the first
    call of Start, so deaths inside start-up recovery — also of an incarnation that is itself
    recovering from a death — are included); [run_history c store0 h] starts from the empty store. *)
-From Verif Require Import Common.Base C01.Model C01.Spec C01.Proofs1 C01.Proofs2 C01.Proofs3 C01.Proofs4 C01.Proofs5 C01.Proofs6 C01.Proofs7 C01.Translated.
+From Verif Require Import Common.Base C01.Model C01.Spec C01.Proofs1 C01.Proofs2 C01.Proofs3 C01.Proofs4 C01.Proofs5 C01.Proofs6 C01.Proofs7 C01.Checker C01.Proofs8 C01.Proofs9 C01.Translated.
 From Verif Require Generated.C01Queue Generated.C01Storage.
 From Coq Require Import Sorted Permutation.
 
@@ -97,6 +97,25 @@ Theorem pq_at_least_once : forall c h n k,
 Proof. exact at_least_once_l. Qed.
 Print Assumptions pq_at_least_once.
 
+(* ... stronger: every accepted request reaches a hand-off that COMPLETES WITH A FINAL OUTCOME.  This is what makes
+   "a hand-off interrupted by shutdown leaves the request stored for the next start" meaningful: the interrupted
+   hand-off does not count, the request is handed off again by a later start until one hand-off is final. *)
+Theorem pq_every_accepted_request_gets_a_final_handoff : forall c h n k,
+  fits c ->
+  (pending (fst (run_history c store0 h)) <= n)%nat ->
+  (length (di_of (fst (run_history c store0 h))) + 2 <= k)%nat ->
+  forall r, In r (accepted (snd (run_history c store0 (h ++ drains n k)))) ->
+            In r (finals (snd (run_history c store0 (h ++ drains n k)))).
+Proof. exact all_final_after_drains_l. Qed.
+Print Assumptions pq_every_accepted_request_gets_a_final_handoff.
+
+(* the hypothesis [fits] only excludes requests that can never be accepted: every ACCEPTED request fits into the
+   empty queue, in every history from every store (the in-memory queue size is never negative) *)
+Theorem pq_accepted_request_fits : forall c h st r,
+  In r (accepted (snd (run_history c st h))) -> (sizeof c r <= capacity c)%Z.
+Proof. exact accepted_fit_history_l. Qed.
+Print Assumptions pq_accepted_request_fits.
+
 (* one clean drain incarnation empties the range [ri, wi) and never lengthens "di"; started on an
    empty range it leaves nothing durable or strictly shortens "di" (progress of the retry) *)
 Theorem pq_drain_progress : forall c h n,
@@ -182,6 +201,39 @@ Theorem pq_old_recovery_parked_now_completes :
   (exists st1 v, run_act None st (initClient cfg_block) = (st1, None, Some (v, 1%nat)) /\ cdi v = [1%N]).
 Proof. exact old_recovery_parked_now_completes_l. Qed.
 Print Assumptions pq_old_recovery_parked_now_completes.
+
+(* ---- configuration plumbing (queue_sender.go newQueueBatchConfig, queue_batch.go newQueueBatch) ----
+   A sending queue configured with a storage extension is a PERSISTENT queue on that storage, for the exporter's own
+   signal and component id, with the configured capacity and block_on_overflow — also when the deprecated exporter
+   batcher option is enabled on top of it (which only adds the batch settings). *)
+Theorem cfg_legacy_batcher_keeps_queue_config : forall mi nc q b,
+  q_enabled q = true ->
+  let r := newQueueBatchConfig mi nc q b in
+  q_enabled r = true /\ q_storage r = q_storage q /\ q_size r = q_size q /\ q_block r = q_block q /\
+  q_sizer r = q_sizer q /\ q_wait r = q_wait q /\ q_consumers r = q_consumers q /\
+  (b_enabled b = true -> q_batch r = Some (b_flush b, b_min b, b_max b)) /\
+  (b_enabled b = false -> r = q).
+Proof. exact legacy_batcher_keeps_queue_config. Qed.
+Print Assumptions cfg_legacy_batcher_keeps_queue_config.
+
+Theorem cfg_storage_gives_persistent_queue : forall mi nc q b sg ow s,
+  q_enabled q = true -> q_storage q = Some s ->
+  exists consumers, queue_of sg ow (newQueueBatchConfig mi nc q b) = QPersistent (q_size q) (q_block q) s sg ow consumers.
+Proof. exact configured_storage_gives_persistent_queue. Qed.
+Print Assumptions cfg_storage_gives_persistent_queue.
+
+(* ---- the decidable clause checkers run on the OBSERVED behaviour of the implementation (C01/Checker.v, used by
+   props/C01/check.py on every observed history, independently of the model's step functions) are sound and complete
+   for the Prop-level clauses ---- *)
+Theorem checker_clause2_sound : forall st evs,
+  clause2b st evs = true <-> (forall r, In r (accepted evs) -> In r (finals evs) \/ durable st r).
+Proof. exact clause2b_sound. Qed.
+Print Assumptions checker_clause2_sound.
+
+Theorem checker_clause1_sound : forall st evs,
+  clause1b st evs = true <-> (nothing_durable st -> forall r, In r (accepted evs) -> In r (handoffs evs)).
+Proof. exact clause1b_sound. Qed.
+Print Assumptions checker_clause1_sound.
 
 (* ---- translator obligations (T1 re-reads the Go source on every run; see C01/Translated.v) ---- *)
 Theorem t1_bytesToItemIndex_matches_go : forall buf,
